@@ -283,6 +283,29 @@ func TestVerifReplayExpandPaths(t *testing.T) {
 			}
 		}
 	}
+	// the value of a string leaf is the text the request gave: a JSON null, object or array has none and is refused
+	// (it is not stored as the text Go prints for it)
+	for _, js := range []string{`{"patterntest":null}`, `{"patterntest":{"a":1}}`, `{"patterntest":["hallo 00"]}`, `{"interface":[{"name":"e1","description":null}]}`, `{"interface":[{"name":"e1","description":{"x":"y"}}]}`} {
+		n++
+		upds, err := conv.ExpandUpdate(ctx, &sdcpb.Update{Path: &sdcpb.Path{}, Value: &sdcpb.TypedValue{Value: &sdcpb.TypedValue_JsonVal{JsonVal: []byte(js)}}}, true)
+		if err == nil {
+			var got []string
+			for _, u := range upds {
+				got = append(got, utils.ToXPath(u.GetPath(), false)+"="+utils.TypedValueToString(u.GetValue()))
+			}
+			for _, fn := range fns {
+				fmt.Printf("REPLAY-FAIL fn=%s clause=a_leaf_takes_a_scalar input=root update %s why=accepted and expanded to %v\n", fn, js, got)
+			}
+		}
+	}
+	for _, js := range []string{`{"patterntest":"hallo 00"}`, `{"rangetestunsigned":5}`, `{"interface":[{"name":"e1","admin-state":"enable"}]}`} {
+		n++
+		if _, err := conv.ExpandUpdate(ctx, &sdcpb.Update{Path: &sdcpb.Path{}, Value: &sdcpb.TypedValue{Value: &sdcpb.TypedValue_JsonVal{JsonVal: []byte(js)}}}, true); err != nil {
+			for _, fn := range fns {
+				fmt.Printf("REPLAY-FAIL fn=%s clause=a_leaf_takes_a_scalar input=root update %s why=refused: %v\n", fn, js, err)
+			}
+		}
+	}
 	// an empty object addressed to a presence container is the container itself, as it is one level up
 	for _, c := range []struct {
 		name string
